@@ -64,9 +64,20 @@ func runOne(ctx context.Context, sp solverSpec, file string, timeoutS, seed int)
 }
 
 // race runs all solvers on the file and returns the first definite answer.
-func race(file string, timeoutS, seed int) solveOut {
+func race(file string, timeoutS, seed int, only string) solveOut {
 	ctx, cancel := context.WithCancel(context.Background())
 	defer cancel()
+	if only != "" {
+		for _, sp := range solvers {
+			if sp.name == only {
+				r := runOne(ctx, sp, file, timeoutS, seed)
+				if r.status != "unsat" && r.status != "sat" {
+					r.solver = "none"
+				}
+				return r
+			}
+		}
+	}
 	ch := make(chan solveOut, len(solvers))
 	for _, sp := range solvers {
 		sp := sp
@@ -102,6 +113,10 @@ func firstLine(s string) string {
 
 // Discharge runs every obligation through the portfolio.
 func Discharge(obls []*Obligation, workDir string, timeoutS, seed, parallel int) {
+	dischargeWith(obls, workDir, timeoutS, seed, parallel, "")
+}
+
+func dischargeWith(obls []*Obligation, workDir string, timeoutS, seed, parallel int, only string) {
 	os.MkdirAll(workDir, 0o755)
 	var wg sync.WaitGroup
 	sem := make(chan struct{}, parallel)
@@ -130,7 +145,7 @@ func Discharge(obls []*Obligation, workDir string, timeoutS, seed, parallel int)
 			if o.ExpectSat && to > 3 {
 				to = 3
 			}
-			r := race(file, to, seed)
+			r := race(file, to, seed, only)
 			o.Status, o.Solver, o.Ms, o.Output = r.status, r.solver, r.ms, r.output
 			o.File = file
 		}(i, o)
@@ -143,7 +158,19 @@ func Discharge(obls []*Obligation, workDir string, timeoutS, seed, parallel int)
 // other seeds and a longer timeout, and merged post-conditions fall back to
 // their per-return-point split.
 func DischargeAll(obls []*Obligation, workDir string, timeoutS, seed, parallel int) {
-	Discharge(obls, workDir, timeoutS, seed, parallel)
+	// pass 1: one solver per obligation (most obligations are easy), pass 2: race the portfolio on the rest
+	first := timeoutS
+	if first > 5 {
+		first = 5
+	}
+	dischargeWith(obls, workDir, first, seed, 14, "z3-new")
+	var rest []*Obligation
+	for _, o := range obls {
+		if o.Status != "unsat" && !(o.ExpectSat && o.Status == "sat") && !o.Pre {
+			rest = append(rest, o)
+		}
+	}
+	Discharge(rest, filepath.Join(workDir, "race"), timeoutS, seed, 5)
 	undecided := func() []*Obligation {
 		var out []*Obligation
 		for _, o := range obls {
@@ -163,7 +190,7 @@ func DischargeAll(obls []*Obligation, workDir string, timeoutS, seed, parallel i
 		}
 	}
 	if len(alts) > 0 {
-		Discharge(alts, filepath.Join(workDir, "split"), timeoutS, seed, parallel)
+		Discharge(alts, filepath.Join(workDir, "split"), timeoutS, seed, 5)
 		for _, o := range withAlts {
 			all := true
 			var ms int64
@@ -180,9 +207,9 @@ func DischargeAll(obls []*Obligation, workDir string, timeoutS, seed, parallel i
 	}
 	for round := 1; round <= 2; round++ {
 		u := undecided()
-		if len(u) == 0 || len(u) > 60 {
+		if len(u) == 0 || len(u) > 24 {
 			return
 		}
-		Discharge(u, filepath.Join(workDir, fmt.Sprintf("retry%d", round)), timeoutS*3, seed+round*7919, parallel)
+		Discharge(u, filepath.Join(workDir, fmt.Sprintf("retry%d", round)), timeoutS*3, seed+round*7919, 5)
 	}
 }
